@@ -19,18 +19,21 @@ import common
 import gen_specs
 
 MANIFEST = dict(
-    text='Theorems (props/C06.v, 33) about Coq definitions over R that py2coq regenerates on every run from '
+    text='Theorems (props/C06.v, 36) about Coq definitions over R that py2coq regenerates on every run from '
          'notch_approximation_law.py, notch_approximation_law_seegerbeste.py and rambgood.py. Extended Neuber (full): the generated '
          'f(s;L) is eq. 2.5-45, strictly increasing in s>0, has exactly one positive root and it lies in [L/K_p, L] (IVT), no root at 0, '
          'equation odd, root strictly increasing in L, the analytic f\' is the derivative (Coquelicot is_derive) on both branches, '
          'secondary branch = Masing doubling, residual |f|<=delta bounds the distance to the root by E*delta, load direction: same '
          'equation, exact roots mutually inverse, load root exists in [s, K_p s]; the fprime used by load() is proved to lie between '
-         'D - L/(sE) and the true derivative D (it is not D on the current tree: known finding). Seeger-Beste (partial): inside '
+         'D - L/(sE) and the true derivative D (it is not D on the current tree: known finding); the strain reported with a stress '
+         'is its Ramberg-Osgood / Masing strain, odd under joint negation of (stress, load), and at a root of either sign '
+         '(stress, strain) lies on the Neuber hyperbola of eq. 2.5-45/46. Seeger-Beste (partial): inside '
          '(L/K_p, L) the generated function is eq. 2.8-42 with 0<u<pi/2, joint negation leaves it unchanged, secondary = primary at '
          'half ranges, no root in (L/(3K_p-2), L/K_p]; uniqueness / upper bound of the Seeger-Beste root are NOT proved (checked per '
          'sample). scipy.optimize.newton is not modelled: per sample CoqInterval certificates (kernel-checked) bound the residual of '
          'the generated function at the returned value and its position in [L/K_p, L]; value certificates tie every generated '
-         'function to the implementation. Relations on the implementation run on every invocation.',
+         'function to the implementation. Relations on the implementation run on every invocation, with every sign pattern '
+         '(positive / alternating / all negative) of the arguments of stress*, strain* and load* of both laws and branches.',
     note=common.TB_NOTE + 'py2coq translator (with the C06 additions: delegate objects, guarded np.power/np.divide idioms) and its whitelist; '
                           'CoqInterval; the float oracle and the float-noise model of the harness; scipy.optimize.newton and float rounding are outside the '
                           'theorems. Cannot exhibit: convergence of the solver for inputs that were not sampled.',
@@ -546,7 +549,7 @@ def input_domain_relations(res, st, lawname, mat, tol, sec, stress_fn, load_fn, 
 LADDERS = [(24, None, False), (24, None, True), (80, 1e-6, False), (48, 1e-6, True)]       # (elements, tolerance or None = the sample's clamped to 1e-6..1e-5, alternating signs)
 
 
-def transition_ladder_relations(res, st, lawname, mat, tol, sec, stress_fn, records):
+def transition_ladder_relations(res, st, lawname, mat, tol, sec, stress_fn, records, strain_fn=None):
     """Array calls on geometric ladders through the elastic-plastic transition: amplitudes K' * 10^q, q = -2 .. 0.3 (plastic strain
     share 1e-7 .. 100), 24 / 48 / 80 elements, one-signed and alternating signs.  In the (nearly) elastic part scipy's vectorised secant flags
     elements of the Seeger-Beste call as not converged, so that the per-element retry (_stress_fix_not_converged_values /
@@ -575,6 +578,77 @@ def transition_ladder_relations(res, st, lawname, mat, tol, sec, stress_fn, reco
             st.inc('ladder_values_checked')
             if i % 4 == 0:
                 records.append((lawname, sec, mat, t, float(Lvec[i]), float(v[i]), bool(ok), st.get('last_how')))
+        fin = np.isfinite(v) & (np.abs(v) <= 10.0 * np.abs(Lvec))       # an unconverged element may be anything; the oracle works in Python floats
+        if strain_fn is not None and fin.any():
+            strain_relations(res, st, lawname, mat, sec, strain_fn, v[fin], Lvec[fin], 'ladder[%d]%s' % (N, ' alternating signs' if alt else ''), scalars=False)
+
+
+STRAIN_RTOL = 1e-12
+
+
+def strain_relations(res, st, lawname, mat, sec, strain_fn, S, Lv, pattern, scalars=True):
+    """The strain reported with a returned stress (range), for stresses / loads of EITHER sign (added after seeded change C06-6: the
+    strain was only ever asked for positive stresses).  S are stresses the law returned for the loads Lv (sign pattern `pattern`).
+    * every element: strain(s, L) = Ramberg-Osgood strain of s (secondary: Masing doubling 2 eps(s/2)), the oracle is odd in s;
+    * jointly negated arguments give the negated strain (the law is odd in the load) -- theorem en_strain_odd / sb_strain_odd;
+    * ndarray = Series = Series with permuted index = np.float64 / float / 0-d / one-element ndarray / one-element Series, bit for bit
+      (no solver is involved: the same elementary operations on every path)."""
+    E, K, n, Kp = mat
+    br = '_secondary_branch' if sec else ''
+    S, Lv = np.asarray(S, float), np.asarray(Lv, float)
+    m = len(S)
+    base = dict(law=lawname, branch=br or 'primary', method='strain' + br, E=E, K=K, n=n, K_p=Kp, sign_pattern=pattern)
+    want = np.array([2 * eps_ro(E, K, n, s / 2) if sec else eps_ro(E, K, n, s) for s in S])
+
+    def ask(cname, a, b):
+        st.inc('strain_calls')
+        try:
+            return np.asarray(strain_fn(a, b), float).reshape(-1)
+        except Exception as e:       # noqa -- no solver here: nothing may raise
+            res.violation(W_CONT, container=cname, exception=type(e).__name__, stresses=S.tolist(), loads=Lv.tolist(), **base)
+            return None
+    S0, L0 = S.copy(), Lv.copy()
+    arr = ask('ndarray[%d]' % m, S, Lv)
+    if not (np.array_equal(S, S0) and np.array_equal(Lv, L0)):
+        res.violation(W_MUT, stresses=S0.tolist(), stresses_after_call=S.tolist(), loads=L0.tolist(), **base)
+        S, Lv = S0, L0
+    if arr is None:
+        return
+    if len(arr) != m:
+        res.violation(W_CONT, container='ndarray[%d]' % m, stresses=S.tolist(), loads=Lv.tolist(), result=arr.tolist(), **base)
+        return
+    nbad = 0
+    for i in range(m):
+        st.inc('strain_values_checked')
+        if S[i] < 0:
+            st.inc('strain_values_checked_negative_stress')
+        if not (math.isfinite(arr[i]) and abs(arr[i] - want[i]) <= STRAIN_RTOL * abs(want[i])):
+            nbad += 1
+            if nbad > 2:          # at most two failing elements of one call are reported
+                continue
+            res.violation(W_STRAIN, stress=float(S[i]), load=float(Lv[i]), strain=float(arr[i]), strain_in_array_call=float(arr[i]), expected=float(want[i]),
+                          container='ndarray[%d]' % m, index=i, stresses=S.tolist(), loads=Lv.tolist(), **base)
+    # jointly negated arguments
+    neg = ask('ndarray[%d] negated' % m, -S, -Lv)
+    if neg is not None and not same_bits(neg, -arr):
+        i = int(np.argmax(np.abs(neg + arr))) if len(neg) == m else 0          # the element with the largest discrepancy
+        res.violation(W_STRAIN, stress=float(S[i]), load=float(Lv[i]), strain=float(arr[i]), strain_of_negated_arguments=float(neg[i]) if len(neg) == m else None,
+                      expected=float(want[i]), note='strain(-s, -L) is not -strain(s, L)', stresses=S.tolist(), loads=Lv.tolist(), **base)
+    # containers
+    perm = [(3 * i + 1) % m for i in range(m)] if m % 3 else list(range(m))[::-1]
+    for cname, a, b in (('Series[%d]' % m, pd.Series(S), pd.Series(Lv)), ('Series[%d] with permuted index' % m, pd.Series(S, index=perm), pd.Series(Lv, index=perm))):
+        v = ask(cname, a, b)
+        if v is not None and not same_bits(v, arr):
+            res.violation(W_CONT, container=cname + ' vs ndarray', stresses=S.tolist(), loads=Lv.tolist(), ndarray=arr.tolist(), series=v.tolist(), **base)
+    if scalars:
+        for i in sorted({0, m // 2, m - 1}):
+            s, L = float(S[i]), float(Lv[i])
+            for cname, a, b in (('float', s, L), ('np.float64', np.float64(s), np.float64(L)), ('ndarray[1]', np.array([s]), np.array([L])),
+                                ('ndarray[0d]', np.array(s), np.array(L)), ('Series[1]', pd.Series([s]), pd.Series([L]))):
+                v = ask(cname, a, b)
+                if v is not None and not (len(v) == 1 and v[0] == arr[i]):
+                    res.violation(W_CONT, container=cname + ' vs ndarray[%d]' % m, stress=s, load=L, stresses=S.tolist(), loads=Lv.tolist(),
+                                  scalar_result=v.tolist()[0] if len(v) else None, array_result=float(arr[i]), **base)
 
 
 def relations_one(res, st, smp, records):
@@ -630,17 +704,20 @@ def relations_one(res, st, smp, records):
                         res.violation(W_CONT, law=lawname, method='stress' + br, container=cname + ' vs ndarray[%d]' % len(Lvec), E=E, K=K, n=n, K_p=Kp,
                                       tol=tol, load=L, loads=Lvec.tolist(), scalar_result=v, array_result=float(arr[i]))
             # ---- oddness (mixed signs in one call, and the fully negated call)
+            signed = [(np.ones(len(Lvec)), 'positive', arr, good.copy())]
             for sg, nm in ((signs, 'alternating signs'), (-np.ones(len(Lvec)), 'negated')):
                 neg, ex = call(stress_fn, Lvec * sg, tol, st, tag + '[odd]')
                 if neg is None:
                     continue
                 neg = np.asarray(neg, float)
+                signed.append((sg, nm, neg, np.zeros(len(Lvec), bool)))
                 for i in range(len(Lvec)):
                     if not good[i]:
                         continue
                     if not check_value(res, st, lawname, mat, Kp, tol, Lvec[i] * sg[i], neg[i], sec, dict(container='ndarray[%d] %s' % (len(Lvec), nm), index=i,
                                                                                                              loads=(Lvec * sg).tolist())):
                         continue
+                    signed[-1][3][i] = True
                     if not abs(neg[i] - sg[i] * arr[i]) <= 2 * R[i]:
                         res.violation(W_ODD, law=lawname, branch=br or 'primary', E=E, K=K, n=n, K_p=Kp, tol=tol, load=float(Lvec[i]),
                                       stress_of_load=float(arr[i]), stress_of_signed_load=float(neg[i]), sign=float(sg[i]), loads=(Lvec * sg).tolist())
@@ -698,6 +775,41 @@ def relations_one(res, st, smp, records):
                         if not abs(float(v) - back[k]) <= lim:
                             res.violation(W_CONT, law=lawname, method='load' + br, container='float vs ndarray[%d]' % len(sub), E=E, K=K, n=n, K_p=Kp, tol=tol,
                                           stress=float(sub[k]), stresses=sub.tolist(), scalar_result=float(v), array_result=float(back[k]))
+            # ---- every sign pattern of the arguments (positive / alternating / all negative): the strain functions on the returned
+            #      stresses in every container, and the backward function on the signed stresses (round trip load(stress(L)) = L)
+            for sg, nm, vals, okv in signed:
+                ii = [i for i in range(len(Lvec)) if okv[i]]
+                if not ii:
+                    continue
+                strain_relations(res, st, lawname, mat, sec, strain_fn, vals[ii], (Lvec * sg)[ii], nm)
+                if nm == 'positive':
+                    continue          # the backward direction on positive stresses is checked above
+                sub = vals[ii].copy()
+                back, ex = call(load_fn, sub, tol, st, '%s.load%s[ndarray signed]' % (lawname, br))
+                if not np.array_equal(sub, vals[ii]):
+                    res.violation(W_MUT, law=lawname, method='load' + br, E=E, K=K, n=n, K_p=Kp, tol=tol, stresses=vals[ii].tolist(), stresses_after_call=sub.tolist())
+                if back is None:
+                    if ex != 'RuntimeError':
+                        res.violation(W_CONT, law=lawname, method='load' + br, container='ndarray[%d] %s' % (len(ii), nm), exception=ex, E=E, K=K, n=n, K_p=Kp, tol=tol,
+                                      stresses=vals[ii].tolist())
+                    continue
+                back = np.asarray(back, float)
+                warned = bool(st.get('last_warned'))
+                for k, i in enumerate(ii):
+                    L, s_, Lb = float(Lvec[i] * sg[i]), float(vals[i]), float(back[k])
+                    Ri = radius(lawname, mat, s_, L, tol, sec)
+                    tauL = tol + tol * abs(L)
+                    if lawname == 'ExtendedNeuber':
+                        allow = 2 * tauL + Kp * Ri
+                    else:
+                        F, Fs, FL, u = sb_F(E, K, n, Kp, abs(s_), abs(L), sec)
+                        allow = 2 * tauL + (abs(Fs / FL) * Ri if FL else math.inf) + (8 * sb_noise(u) / abs(FL) if FL else math.inf)
+                    st.inc('round_trips')
+                    st.inc('round_trips_negative_stress', 1 if s_ < 0 else 0)
+                    if not (math.isfinite(Lb) and abs(Lb - L) <= allow):
+                        res.violation(W_INV, law=lawname, branch=br or 'primary', E=E, K=K, n=n, K_p=Kp, tol=tol, load=L, stress=s_, load_of_stress=Lb,
+                                      allowed_difference=allow, plastic_share=plastic_share(E, K, n, L / (2.0 if sec else 1.0)), returned=s_,
+                                      solver_warned=warned, container='ndarray[%d] %s' % (len(ii), nm), loads=(Lvec * sg).tolist())
             # ---- the calls above must not have written into the caller's array, and asking again gives the same answer
             if not np.array_equal(Lvec, Lvec0):
                 res.violation(W_MUT, law=lawname, method='stress' + br, E=E, K=K, n=n, K_p=Kp, tol=tol, loads=Lvec0.tolist(), loads_after_call=Lvec.tolist())
@@ -707,7 +819,7 @@ def relations_one(res, st, smp, records):
                 res.violation(W_REPEAT, law=lawname, method='stress' + br, E=E, K=K, n=n, K_p=Kp, tol=tol, loads=Lvec.tolist(), first=arr.tolist(),
                               second=np.asarray(again, float).tolist())
             # ---- dense ladder through the elastic-plastic transition (retry path of Seeger-Beste next to plastic elements)
-            transition_ladder_relations(res, st, lawname, mat, tol, sec, stress_fn, records)
+            transition_ladder_relations(res, st, lawname, mat, tol, sec, stress_fn, records, strain_fn)
             # ---- zero loads, integer-valued loads, lists, permuted Series index
             input_domain_relations(res, st, lawname, mat, tol, sec, stress_fn, load_fn, Lvec, arr, good, R)
         if lawname == 'ExtendedNeuber':
@@ -835,6 +947,9 @@ def certificates(rng, samples, records, per_kind):
             s3 = L / Kp * rng.uniform(0.75, 0.95) if Kp >= 1.5 else None
             if s3 is not None and math.cos(math.pi / 2 * ((L / s3 - 1) / (Kp - 1))) < -1e-3:
                 two += [('sb_middle_term', sb._middle_term, (np.float64(s3), LL)), ('sb_stress_implicit', sb._stress_implicit, (np.float64(s3), LL))]
+        # the strain functions with jointly negated arguments as well (the sign of every argument is an input dimension)
+        two += [(name, meth, tuple(-a for a in args)) for name, meth, args in two if name.endswith(('_strain', '_strain_secondary_branch'))
+                and not name.endswith(('neuber_strain', 'neuber_strain_secondary'))]
         for name, meth, args in two:
             val = float(np.asarray(meth(*args), float))
             add(cert.near(A(name, E, K, n, Kp, *[float(a) for a in args]), val, rtol=1e-8, atol=1e-15 * max(1.0, abs(val)) + 1e-18),
@@ -886,7 +1001,9 @@ def run(res, only=None):
                        '(20 % of the samples: K_p - 1 log-uniform in 1e-3..0.2; Seeger-Beste only K_p > 1), ladders of loads 1e-3..4 R_m with gaps >= 2 %, both signs, ranges up to twice that, tol = rtol in 1e-4..1e-10, '
                        'containers float / np.float64 / 0-d / 1-element ndarray and Series / ndarray / Series / Series with permuted index / integer-valued loads as int, np.int64, int64 ndarray, '
                        'int64 Series, list of int, list and tuple of float; a load of exactly 0 alone and inside arrays; per law and branch geometric ladders of 24/48/80 amplitudes K\'*10^(-2..0.3) '
-                       '(tol 1e-6..1e-5) through the elastic-plastic transition; non-trivial = distinct (law, branch, material, K_p, load) whose load has a '
+                       '(tol 1e-6..1e-5) through the elastic-plastic transition; sign patterns positive / alternating / all negative for the arguments of stress*, '
+                       'strain* (ndarray, Series, permuted index, float, np.float64, 0-d, one-element; also on the ladders) and load* '
+                       '(coverage.implementation_relations: strain_values_checked_negative_stress, round_trips_negative_stress); non-trivial = distinct (law, branch, material, K_p, load) whose load has a '
                        'plastic strain share > 1e-6 (the law differs from sigma = L), counted over returned values that were checked')
     proofs_ok = common.standard_proof_stage(res, 'C06', extra_targets=['theories/Common/Cert.vo'], gen_fn=lambda: gen_specs.generate(GEN))
     k, m, per_kind = (36, 5, 8) if quick else (400, 8, 45)
